@@ -1009,7 +1009,7 @@ DETAIL["c20_position_present"] = lambda k, p: {"source": place(EOF_FAMILY[k], p)
 from harness import corpus as _corpus  # noqa: E402
 
 _CENV = _corpus.make_env(XEnv)
-for _k in ("p", "q", "brk"):
+for _k in ("p", "q", "brk", "n1", "n2", "cbase"):
     SOURCES.setdefault(_k, _corpus.PARTIALS[_k])
 
 
